@@ -11,6 +11,7 @@ Open Scope Z_scope.
 Section FlushTrack.
 Variables (cfg : config) (w : nat) (mu : batch -> Z) (k : Z).
 Hypothesis Hmu : additive mu.
+Hypothesis Hf : faithful cfg.
 
 (* what is known about the tasks accepted before the Flush of client w started, by the
    program counter of w: once its RemoveAll is done they are all out of the container *)
@@ -27,7 +28,7 @@ Lemma flush_step s e : Inv cfg s -> k <= M_acc mu s -> GF s ->
   GF (exec cfg s e).
 Proof.
   intros HI Hk HG Hnc. unfold exec in *. destruct (step cfg s e) as [s'|] eqn:Hs; [|exact HG].
-  destruct (step_facts _ _ _ _ HI Hs) as [HI' HM]. specialize (HM mu Hmu).
+  destruct (step_facts _ _ _ _ Hf HI Hs) as [HI' HM]. specialize (HM mu Hmu).
   pose proof (i_cons _ _ HI' mu Hmu) as Hc'.
   pose proof Hmu as (Hmu0 & Hmuapp & Hmunn).
   destruct HM as [Ma Md M2 M3 _ _].
@@ -59,7 +60,7 @@ Lemma flush_track : forall evs s, Inv cfg s -> k <= M_acc mu s -> GF s ->
 Proof.
   induction evs as [|e evs IH]; intros s HI Hk HG Hev; cbn; [exact HG|].
   inversion Hev as [|? ? He Hev']; subst.
-  destruct (exec_facts cfg s e HI) as [HI' HM]. pose proof (m_acc _ _ _ _ (HM mu Hmu)).
+  destruct (exec_facts cfg s e Hf HI) as [HI' HM]. pose proof (m_acc _ _ _ _ (HM mu Hmu)).
   apply IH; auto.
   - lia.
   - apply flush_step; auto.
@@ -74,17 +75,17 @@ Proof.
 Qed.
 
 Lemma flush_covers_gen cfg s0 w mid mu :
-  additive mu -> Inv cfg s0 ->
+  additive mu -> faithful cfg -> Inv cfg s0 ->
   nth_error (cl s0) w = Some CIdle ->
   no_call_of w mid ->
   nth_error (cl (run cfg s0 (EvCall w CFlush :: mid))) w = Some CIdle ->
   let s1 := run cfg s0 (EvCall w CFlush :: mid) in
   M_acc mu s0 <= M_done mu s1 + M_en mu s1 + M_un mu s1.
 Proof.
-  intros Hmu HI Hidle Hnc Hret s1.
-  destruct (exec_facts cfg s0 (EvCall w CFlush) HI) as [HI' HM].
+  intros Hmu Hf HI Hidle Hnc Hret s1.
+  destruct (exec_facts cfg s0 (EvCall w CFlush) Hf HI) as [HI' HM].
   pose proof (m_acc _ _ _ _ (HM mu Hmu)) as Hacc.
-  pose proof (flush_track cfg w mu (M_acc mu s0) Hmu mid (exec cfg s0 (EvCall w CFlush)) HI' Hacc) as HT.
+  pose proof (flush_track cfg w mu (M_acc mu s0) Hmu Hf mid (exec cfg s0 (EvCall w CFlush)) HI' Hacc) as HT.
   unfold s1. rewrite run_cons in Hret |- *.
   unfold GF in HT at 2. rewrite Hret in HT. apply HT; auto.
   unfold GF. rewrite (exec_call_flush cfg s0 w Hidle). exact I.
@@ -98,7 +99,7 @@ Proof.
   rewrite !Happ, !mu_flat_map by exact Ha. ring.
 Qed.
 
-Lemma flush_covers_l cfg n pre w mid :
+Lemma flush_covers_l cfg n pre w mid : faithful cfg ->
   let s0 := run cfg (init n) pre in
   let s1 := run cfg s0 (EvCall w CFlush :: mid) in
   nth_error (cl s0) w = Some CIdle ->
@@ -106,8 +107,8 @@ Lemma flush_covers_l cfg n pre w mid :
   nth_error (cl s1) w = Some CIdle ->
   forall a, (count_occ Z.eq_dec (accepted s0) a <= count_occ Z.eq_dec (out_of_container s1) a)%nat.
 Proof.
-  intros s0 s1 Hidle Hnc Hret a.
-  pose proof (flush_covers_gen cfg s0 w mid (cntz a) (cntz_additive a) (run_inv cfg n pre)
+  intros Hf s0 s1 Hidle Hnc Hret a.
+  pose proof (flush_covers_gen cfg s0 w mid (cntz a) (cntz_additive a) Hf (run_inv cfg n pre Hf)
                 Hidle Hnc Hret) as H.
   cbv zeta in H. fold s1 in H.
   pose proof (cntz_additive a) as Ha. pose proof Ha as (_ & Happ & _).
@@ -117,7 +118,7 @@ Proof.
 Qed.
 
 (* with distinct tasks: no task accepted before the Flush is still in the container when it returns *)
-Lemma flush_empties_l cfg n pre w mid :
+Lemma flush_empties_l cfg n pre w mid : faithful cfg ->
   let s0 := run cfg (init n) pre in
   let s1 := run cfg s0 (EvCall w CFlush :: mid) in
   nth_error (cl s0) w = Some CIdle ->
@@ -126,12 +127,12 @@ Lemma flush_empties_l cfg n pre w mid :
   NoDup (accepted s1) ->
   forall a, In a (accepted s0) -> In a (out_of_container s1) /\ ~ In a (cont s1).
 Proof.
-  intros s0 s1 Hidle Hnc Hret Hnd a Ha.
-  pose proof (flush_covers_l cfg n pre w mid Hidle Hnc Hret a) as H. fold s0 s1 in H.
+  intros Hf s0 s1 Hidle Hnc Hret Hnd a Ha.
+  pose proof (flush_covers_l cfg n pre w mid Hf Hidle Hnc Hret a) as H. fold s0 s1 in H.
   assert (Hin : In a (out_of_container s1)).
   { apply (count_occ_In Z.eq_dec). apply (count_occ_In Z.eq_dec) in Ha. lia. }
   split; [exact Hin|]. intros Hc.
-  assert (HI1 : Inv cfg s1) by (apply run_inv_from, run_inv).
+  assert (HI1 : Inv cfg s1) by (apply run_inv_from; [exact Hf | apply run_inv, Hf]).
   pose proof (conservation_perm cfg s1 HI1) as HP.
   assert (Hnd' : NoDup (done_tasks s1 ++ places s1)) by (eapply Permutation_NoDup; eauto).
   (* a occurs in the container and outside it: twice in a duplicate-free list *)
